@@ -18,9 +18,10 @@ import (
 )
 
 const (
-	networksAnnotation = "k8s.v1.cni.cncf.io/networks"
-	extArgsAnnotation  = "k8s.v1.cni.galaxy.io/args"
-	eniResource        = "tke.cloud.tencent.com/eni-ip"
+	networksAnnotation    = "k8s.v1.cni.cncf.io/networks"
+	extArgsAnnotation     = "k8s.v1.cni.galaxy.io/args"
+	eniResource           = "tke.cloud.tencent.com/eni-ip"
+	portMappingAnnotation = "tkestack.io/portmapping"
 )
 
 var allTypes = []string{"vfbridge0", "vfvlan1", "vfveth2", "vfeni3", "vfsriov4", "vfipvlan5", "vfmacvlan6",
@@ -206,6 +207,19 @@ type podModel struct {
 	WantENI       bool        `json:"want_eni"`
 	ExtKV         [][2]string `json:"ext_args,omitempty"` // key, raw JSON value under "common"
 	ExtAnnotation string      `json:"ext_annotation,omitempty"`
+	// concurrent phase only (zero in every sequential phase): labels for NetworkPolicy selection, container ports
+	// that make parsePorts return something, the tkestack.io/portmapping annotation, the node the pod runs on
+	Labels     map[string]string `json:"labels,omitempty"`
+	Ports      []podPort         `json:"ports,omitempty"`
+	PortMapAnn bool              `json:"portmapping_annotation,omitempty"`
+	NodeName   string            `json:"node_name,omitempty"`
+}
+
+// podPort is one container port of a concurrent-phase pod.
+type podPort struct {
+	HostPort      int32  `json:"host_port"`
+	ContainerPort int32  `json:"container_port"`
+	Proto         string `json:"proto"`
 }
 
 func (p *podModel) render() {
@@ -268,8 +282,22 @@ func (p *podModel) object() *corev1.Pod {
 	if p.ExtAnnotation != "" {
 		ann[extArgsAnnotation] = p.ExtAnnotation
 	}
+	if p.PortMapAnn {
+		ann[portMappingAnnotation] = ""
+	}
 	if len(ann) > 0 {
 		pod.Annotations = ann
+	}
+	if len(p.Labels) > 0 {
+		pod.Labels = map[string]string{}
+		for k, v := range p.Labels {
+			pod.Labels[k] = v
+		}
+	}
+	pod.Spec.NodeName = p.NodeName
+	for _, pp := range p.Ports {
+		pod.Spec.Containers[0].Ports = append(pod.Spec.Containers[0].Ports, corev1.ContainerPort{HostPort: pp.HostPort,
+			ContainerPort: pp.ContainerPort, Protocol: corev1.Protocol(pp.Proto)})
 	}
 	if p.WantENI {
 		q := resource.NewQuantity(1, resource.DecimalSI)
